@@ -9,7 +9,12 @@ pub trait Elem: Copy + Send + 'static {
     const BITS: u32;
     const SIZE: usize;
     fn from_nat(v: u128) -> Self;
+    /// exact bit pattern
     fn to_nat(&self) -> u128;
+    /// bit pattern as compared with block models: NaNs canonicalised
+    fn to_obs(&self) -> u128 {
+        self.to_nat()
+    }
 }
 macro_rules! int_elem {
     ($t:ty, $bits:expr) => {
@@ -36,6 +41,9 @@ impl Elem for f32 {
         f32::from_bits(v as u32)
     }
     fn to_nat(&self) -> u128 {
+        self.to_bits() as u128
+    }
+    fn to_obs(&self) -> u128 {
         canon_f32(*self) as u128
     }
 }
@@ -53,6 +61,9 @@ impl Elem for Complex {
         Complex::new(f32::from_bits(v as u32), f32::from_bits((v >> 32) as u32))
     }
     fn to_nat(&self) -> u128 {
+        (self.re.to_bits() as u128) | ((self.im.to_bits() as u128) << 32)
+    }
+    fn to_obs(&self) -> u128 {
         (canon_f32(self.re) as u128) | ((canon_f32(self.im) as u128) << 32)
     }
 }
